@@ -180,6 +180,10 @@ class Exec:
         self.max_depth = 40
         self.deadline = None
         self.global_init = {}
+        self.on_call = {}
+        self.fresh_cache = {}
+        self.use_portfolio = True
+        self.portfolio_log = []
         self.external = None  # external solver fallback callable(list_of_asserts) -> 'sat'|'unsat'|'unknown'
 
     # ------------------------------------------------------------------ solver
@@ -215,6 +219,33 @@ class Exec:
         self.tsolve += time.time() - t
         return res, m
 
+    def model_fresh(self, pc, extra=None, timeout_ms=None):
+        """one-shot (non-incremental) query: FP / wide bit-vector oracles are far faster outside the push/pop solver"""
+        self.nq += 1; t = time.time()
+        s = z3.Solver(); s.set('timeout', timeout_ms or self.qtimeout_ms)
+        if extra is not None: pc = slice_pc(pc, extra)
+        key = tuple(sorted(c.get_id() for c in pc)) + ((extra.get_id(),) if extra is not None else ())
+        hit = self.fresh_cache.get(key)
+        if hit is not None: return hit
+        s.add(*pc)
+        if extra is not None: s.add(extra)
+        r = s.check(); m = s.model() if r == z3.sat else None
+        self.tsolve += time.time() - t
+        res = 'sat' if r == z3.sat else 'unsat' if r == z3.unsat else 'unknown'
+        if res == 'unknown' and self.use_portfolio:
+            from . import portfolio
+            res, who = portfolio.solve(list(pc) + ([extra] if extra is not None else []), timeout_s=(timeout_ms or self.qtimeout_ms) / 1000)
+            self.portfolio_log.append((res, who))
+            if res == 'sat':   # a model is needed by callers: retry in-process with a longer limit, else report sat without model
+                s2 = z3.Solver(); s2.set('timeout', 60000); s2.add(*pc)
+                if extra is not None: s2.add(extra)
+                m = s2.model() if s2.check() == z3.sat else None
+            self.tsolve = self.tsolve
+        if res == 'unknown': self.unknowns += 1
+        self.fresh_cache[key] = (res, m, pc, extra)[:2]
+        self._keep = getattr(self, '_keep', []); self._keep.append((pc, extra))   # keep ASTs alive so ids stay unique
+        return res, m
+
     def feasible(self, pc, extra=None):
         return self.check(pc, extra)[0] != 'unsat'
 
@@ -247,8 +278,8 @@ class Exec:
             if bk == UNSAFEPTR: return NIL
             if bk == UNTYPED_NIL: return NIL
         if k == 'struct':
-            if self.ir.tstr(tid) == 'time.Time' and self.time_model == 'int': return TimeV(z3.IntVal(0))
-            return StructV(self.zero(f['type']) for f in t['fields'])
+            if self.ir.tstr(tid) == 'time.Time' and self.time_model == 'int': return TimeV(z3.BitVecVal(-62135596800 * 10**9, 96))
+            return StructV(self.zero(f['type']) for f in (t['fields'] or []))
         if k == 'array':
             if t['len'] > 256: return Opaque('bigarray')
             return ArrayV(self.zero(t['elem']) for _ in range(t['len']))
@@ -293,8 +324,8 @@ class Exec:
         utid, t = self.ir.under(tid); k = t['kind']
         if k == 'struct':
             if self.ir.tstr(tid) == 'time.Time' and self.time_model == 'int':
-                return TimeV(z3.Int(name))
-            return StructV(Lazy(f['type'], name + '.' + f['name']) for f in t['fields'])
+                return TimeV(z3.BitVec(name, 96))
+            return StructV(Lazy(f['type'], name + '.' + f['name']) for f in (t['fields'] or []))
         if k == 'array':
             if t['len'] > 64: return Opaque(name)
             return ArrayV(Lazy(t['elem'], f'{name}[{i}]') for i in range(t['len']))
@@ -317,7 +348,7 @@ class Exec:
         if k == 'pointer' and nonnil: return Ptr(st.alloc(Lazy(t['elem'], '*' + name)))
         if k == 'interface' and nonnil: return IfaceV('dyn:' + name, Opaque(name))
         if k == 'tuple': return tuple(self.fresh(st, e, f'{name}.{i}', nonnil) for i, e in enumerate(t['elems'] or []))
-        if k == 'struct' and self.ir.tstr(tid) == 'time.Time' and self.time_model == 'int': return TimeV(z3.Int(name))
+        if k == 'struct' and self.ir.tstr(tid) == 'time.Time' and self.time_model == 'int': return TimeV(z3.BitVec(name, 96))
         if k in ('struct', 'array', 'slice', 'map', 'pointer', 'interface'):
             lz = Lazy(tid, name)
             return lz
@@ -1197,6 +1228,8 @@ class Exec:
                 fr.regs[reg] = self.fresh(st, rt, 'ignored') if rt else None
             return None
         if name in self.ir.funcs and (self.inline is None or self.inline(name)):
+            hook = self.on_call.get(name)
+            if hook is not None: hook(self, st, args)
             f2 = Frame(self.ir.funcs[name], args, bindings); f2.ret = reg
             if len(st.frames) > self.max_depth: raise Unsupported('call depth')
             st.frames.append(f2); self.encoded.add(name); return None
@@ -1328,6 +1361,36 @@ class Exec:
         vals = list(vals)
         if not vals: return NILSLICE()
         return SliceV(st.alloc(ArrayV(vals)), 0, len(vals), len(vals))
+
+
+def free_consts(e, acc=None, seen=None):
+    acc = set() if acc is None else acc; seen = set() if seen is None else seen
+    stack = [e]
+    while stack:
+        x = stack.pop()
+        i = x.get_id()
+        if i in seen: continue
+        seen.add(i)
+        if z3.is_const(x) and x.decl().kind() == z3.Z3_OP_UNINTERPRETED: acc.add(x.decl().name())
+        elif z3.is_app(x):
+            if x.decl().kind() == z3.Z3_OP_UNINTERPRETED: acc.add('fn:' + x.decl().name())
+            stack.extend(x.children())
+        elif z3.is_quantifier(x): stack.append(x.body())
+    return acc
+
+
+def slice_pc(pc, extra):
+    """cone of influence: keep only the path-condition conjuncts that (transitively) share symbols with the query.
+    Sound because the whole path condition is feasible: the dropped part is satisfiable independently."""
+    want = free_consts(extra)
+    items = [(c, free_consts(c)) for c in pc]
+    keep = [False] * len(items); changed = True
+    while changed:
+        changed = False
+        for i, (c, fv) in enumerate(items):
+            if not keep[i] and (fv & want):
+                keep[i] = True; want |= fv; changed = True
+    return [c for i, (c, fv) in enumerate(items) if keep[i]]
 
 
 def self_signed_index(i):
